@@ -294,7 +294,7 @@ def confirm_and_report(prop, bins, seed, batches, known):
             cmd = [binpath, "shrink", "--prop", prop, "--seed", str(seed), "--plan-file", planfile, "--out", out]
         else:
             cmd = [binpath, "shrink", "--prop", prop, "--seed", str(seed), "--index", str(v.get("i", 0)), "--out", out]
-            if PROPS[prop]["engine"] == "simA" and "pstart" in v:      # the histories the same worker process had executed before (used only if the plan alone does not reproduce)
+            if PROPS[prop]["engine"] in ("simA", "simC") and "pstart" in v:      # the histories the same worker process had executed before (used only if the plan alone does not reproduce)
                 cmd += ["--chain-start", str(v["pstart"]), "--chain-stride", str(v["pstride"])]
         p = subprocess.run(cmd, stdout=subprocess.PIPE, stderr=subprocess.PIPE, text=True, env=env, errors="replace")
         if p.returncode != 0:
